@@ -222,7 +222,8 @@ def check_instance(p, ai, inst, hs=0, via_api=False):
         key = "other-class/%s/%s->%s" % (key_arch(ai, [inst.cls] + [type(o) for o in seen]), syntax_shape(inst.cls.syntax), shapes)
     elif forms(seen[0]) != forms(built):
         other = "same class, forms %s" % "/".join(forms(seen[0])[1:])
-        key = "other-form/%s/%s->%s" % (key_arch(ai, [inst.cls]), obj_shape(built), obj_shape(seen[0]))
+        fa, fb = forms(built)[1:], forms(seen[0])[1:]
+        key = "other-form/%s/%s->%s" % (key_arch(ai, [inst.cls]), "+".join(x for x in fa if x not in fb) or "same", "+".join(x for x in fb if x not in fa) or "same")
     else:
         key = "same-form-differs/%s/%s/%s" % (key_arch(ai, [inst.cls]), obj_shape(built), what_differs)
     p.collect("classes:" + key, inst.cid)
@@ -242,7 +243,10 @@ def config(tier):
 def work_items(cfg):
     from vf.gen import insgen
     items = []
+    only = [a for a in os.environ.get("VF_ARCHS", "").split(",") if a]
     for an in insgen.arch_names():
+        if only and an not in only:
+            continue
         ai = insgen.get_arch_info(an)
         base = None
         if cfg["light"] and an in LIGHT_VARIANTS:
@@ -290,6 +294,8 @@ def run(ctx):
     ctx.note("archs", list(archs))
     ctx.note("config", cfg)
     ctx.note("skipped_classes_without_syntax", {an: len(insgen.get_arch_info(an).skipped) for an in archs})
+    if os.environ.get("VF_ARCHS"):
+        ctx.cap("VF_ARCHS=%s restricts the architectures (development aid)" % os.environ["VF_ARCHS"])
     explore(ctx, cfg, hs)
     if ctx.tier == "thorough":
         # ambiguous parses with equal priority could hide behind one hash seed: redo the sweep under three more
